@@ -4,10 +4,11 @@
 use crate::refopt::{self, norm2, RefLink};
 use crate::Out;
 use linfa::traits::{Fit, Predict};
-use linfa::Dataset;
+use crate::layout::{expand, lay};
+use linfa::DatasetBase;
 use linfa_linear::{LinearError, Link, TweedieRegressor};
 use lvmc_core::{guarded, Violation};
-use ndarray::{Array1, Array2};
+use ndarray::Array1;
 use serde::{Deserialize, Serialize};
 
 #[derive(Clone, Debug, Serialize, Deserialize)]
@@ -21,6 +22,37 @@ pub struct TwCase {
     pub intercept: bool,
     pub tol: f64,
     pub max_iter: usize,
+    /// rows (and targets) are cycled to this many samples (replicated design)
+    #[serde(default)]
+    pub n_rows: Option<usize>,
+    /// memory layout of the records handed to fit / of the query matrix handed to predict
+    #[serde(default = "crate::std_layout")]
+    pub fit_layout: String,
+    #[serde(default = "crate::std_layout")]
+    pub query_layout: String,
+    /// element type of the subject: f64 | f32
+    #[serde(default = "crate::f64_name")]
+    pub float: String,
+}
+
+impl TwCase {
+    fn is32(&self) -> bool {
+        self.float == "f32"
+    }
+    fn seen(&self, v: f64) -> f64 {
+        if self.is32() {
+            (v as f32) as f64
+        } else {
+            v
+        }
+    }
+    /// records / targets as the subject sees them (replicated to n_rows, rounded to its float type)
+    pub fn xs(&self) -> Vec<Vec<f64>> {
+        expand(&self.x, self.n_rows).iter().map(|r| r.iter().map(|&v| self.seen(v)).collect()).collect()
+    }
+    pub fn ys(&self) -> Vec<f64> {
+        expand(&self.y, self.n_rows).iter().map(|&v| self.seen(v)).collect()
+    }
 }
 
 pub fn in_support(power: f64, y: &[f64]) -> bool {
@@ -44,7 +76,6 @@ pub fn needs_isolation(case: &TwCase) -> bool {
 }
 
 pub enum FitRes {
-    Model(TweedieRegressor<f64>),
     /// coef, intercept, predictions on `tw_queries(x, coef)` (computed in the child by the real `predict`)
     Params(Vec<f64>, f64, Vec<f64>),
     ErrRange,
@@ -62,26 +93,10 @@ fn fit_msg(f: &FitRes) -> Option<String> {
     }
 }
 
-fn build(case: &TwCase) -> (linfa_linear::TweedieRegressorParams<f64>, Dataset<f64, f64, ndarray::Ix1>) {
-    let n = case.x.len();
-    let d = case.x[0].len();
-    let link = match case.link.as_str() {
-        "identity" => Link::Identity,
-        "log" => Link::Log,
-        "logit" => Link::Logit,
-        _ => panic!("bad link"),
-    };
-    let x = Array2::from_shape_fn((n, d), |(i, j)| case.x[i][j]);
-    let y = Array1::from(case.y.clone());
-    let params = TweedieRegressor::params().alpha(case.alpha).power(case.power).link(link).fit_intercept(case.intercept).tol(case.tol).max_iter(case.max_iter);
-    (params, Dataset::new(x, y))
-}
-
-
 /// Query points for a fitted model: the training points, the origin and points along the coefficient
 /// vector with x.coef in {+-1, +-40, +-710, +-1000}. A pure function of (x, coef): the child evaluates the real
 /// `predict` on it, the parent rebuilds the same list for the oracle.
-pub fn tw_queries(x: &[Vec<f64>], w: &[f64]) -> Vec<Vec<f64>> {
+pub fn tw_queries(x: &[Vec<f64>], w: &[f64], is32: bool) -> Vec<Vec<f64>> {
     let d = x[0].len();
     let mut queries: Vec<Vec<f64>> = x.to_vec();
     queries.push(vec![0.0; d]);
@@ -93,17 +108,68 @@ pub fn tw_queries(x: &[Vec<f64>], w: &[f64]) -> Vec<Vec<f64>> {
             }
         }
     }
-    queries
+    // as the subject sees them
+    let seen = |v: f64| if is32 { (v as f32) as f64 } else { v };
+    queries.into_iter().map(|r| r.into_iter().map(seen).collect::<Vec<f64>>()).filter(|r| r.iter().all(|v| v.abs() < 1e30)).collect()
 }
 
+macro_rules! fit_impl {
+    ($name:ident, $F:ty) => {
+        fn $name(case: &TwCase) -> FitRes {
+            let link = match case.link.as_str() {
+                "identity" => Link::Identity,
+                "log" => Link::Log,
+                "logit" => Link::Logit,
+                _ => panic!("bad link"),
+            };
+            let xs = case.xs();
+            let d = xs[0].len();
+            let rows: Vec<Vec<$F>> = xs.iter().map(|r| r.iter().map(|&v| v as $F).collect()).collect();
+            let laid = lay(&rows, &case.fit_layout, <$F>::NAN);
+            let y: Array1<$F> = Array1::from(case.ys().iter().map(|&v| v as $F).collect::<Vec<$F>>());
+            let ds = DatasetBase::new(laid.view(), y);
+            let params = TweedieRegressor::<$F>::params()
+                .alpha(case.alpha as $F)
+                .power(case.power as $F)
+                .link(link)
+                .fit_intercept(case.intercept)
+                .tol(case.tol as $F)
+                .max_iter(case.max_iter);
+            match guarded(|| params.fit(&ds)) {
+                Ok(Ok(m)) => {
+                    let w: Vec<f64> = m.coef.iter().map(|&v| v as f64).collect();
+                    let b = m.intercept as f64;
+                    let preds: Vec<f64> = if w.len() == d {
+                        let queries = tw_queries(&xs, &w, case.is32());
+                        let qrows: Vec<Vec<$F>> = queries.iter().map(|r| r.iter().map(|&v| v as $F).collect()).collect();
+                        let qlaid = lay(&qrows, &case.query_layout, <$F>::NAN);
+                        let q = qlaid.view();
+                        match guarded(|| m.predict(&q)) {
+                            Ok(p) => p.iter().map(|&v| v as f64).collect(),
+                            Err(p) => return FitRes::PredictPanic(p),
+                        }
+                    } else {
+                        vec![]
+                    };
+                    FitRes::Params(w, b, preds)
+                }
+                Ok(Err(LinearError::InvalidTargetRange(_))) => FitRes::ErrRange,
+                Ok(Err(LinearError::Argmin(e))) => FitRes::ErrArgmin(format!("argmin {}", e)),
+                Ok(Err(e)) => FitRes::ErrOther(format!("{}", e)),
+                Err(p) => FitRes::Panic(p),
+            }
+        }
+    };
+}
+fit_impl!(fit_here_f64, f64);
+fit_impl!(fit_here_f32, f32);
+
+/// the real fit + predict, in this process (only ever called in the child)
 pub fn fit_here(case: &TwCase) -> FitRes {
-    let (params, ds) = build(case);
-    match guarded(|| params.fit(&ds)) {
-        Ok(Ok(m)) => FitRes::Model(m),
-        Ok(Err(LinearError::InvalidTargetRange(_))) => FitRes::ErrRange,
-        Ok(Err(LinearError::Argmin(e))) => FitRes::ErrArgmin(format!("argmin {}", e)),
-        Ok(Err(e)) => FitRes::ErrOther(format!("{}", e)),
-        Err(p) => FitRes::Panic(p),
+    if case.is32() {
+        fit_here_f32(case)
+    } else {
+        fit_here_f64(case)
     }
 }
 
@@ -112,29 +178,13 @@ pub fn child_main(case_json: &str) -> ! {
     std::panic::set_hook(Box::new(|_| {}));
     let case: TwCase = serde_json::from_str(case_json).expect("case json");
     let v = match fit_here(&case) {
-        FitRes::Model(m) => {
-            let w: Vec<f64> = m.coef.to_vec();
-            let queries = tw_queries(&case.x, &w);
-            let d = case.x[0].len();
-            let preds: Vec<u64> = if w.len() == d {
-                let q = Array2::from_shape_fn((queries.len(), d), |(i, j)| queries[i][j]);
-                match guarded(|| m.predict(&q)) {
-                    Ok(p) => p.iter().map(|v| v.to_bits()).collect(),
-                    Err(p) => {
-                        println!("{}", serde_json::json!({"status": "predict_panic", "msg": p}));
-                        std::process::exit(0);
-                    }
-                }
-            } else {
-                vec![]
-            };
-            serde_json::json!({"status": "ok", "coef": m.coef.iter().map(|v| v.to_bits()).collect::<Vec<u64>>(), "intercept": m.intercept.to_bits(), "pred": preds})
-        }
+        FitRes::Params(w, b, p) => serde_json::json!({"status": "ok", "coef": w.iter().map(|v| v.to_bits()).collect::<Vec<u64>>(), "intercept": b.to_bits(), "pred": p.iter().map(|v| v.to_bits()).collect::<Vec<u64>>()}),
         FitRes::ErrRange => serde_json::json!({"status": "err_range"}),
         FitRes::ErrArgmin(m) => serde_json::json!({"status": "err_argmin", "msg": m}),
         FitRes::ErrOther(m) => serde_json::json!({"status": "err_other", "msg": m}),
         FitRes::Panic(m) => serde_json::json!({"status": "panic", "msg": m}),
-        _ => unreachable!(),
+        FitRes::PredictPanic(m) => serde_json::json!({"status": "predict_panic", "msg": m}),
+        FitRes::Timeout => unreachable!(),
     };
     println!("{}", v);
     std::process::exit(0);
@@ -219,9 +269,40 @@ fn power_class(p: f64) -> &'static str {
 }
 
 pub fn run(case: &TwCase, viols: &mut Vec<Violation>) -> Out {
+    if case.fit_layout == "standard" && case.query_layout == "standard" {
+        return run_inner(case, viols);
+    }
+    // layout case: see binary::run
+    let mut base = case.clone();
+    base.fit_layout = "standard".into();
+    base.query_layout = "standard".into();
+    let mut bv = Vec::new();
+    let bo = run_inner(&base, &mut bv);
+    if !bv.is_empty() || bo.ood {
+        viols.extend(bv);
+        return bo;
+    }
+    let mut lv = Vec::new();
+    let o = run_inner(case, &mut lv);
+    for v in lv {
+        viols.push(crate::as_layout_dependence(v, &case.fit_layout, &case.query_layout));
+    }
+    o
+}
+
+fn run_inner(case: &TwCase, viols: &mut Vec<Violation>) -> Out {
     let mut out = Out::default();
-    let n = case.x.len();
-    let d = case.x[0].len();
+    let xs = case.xs();
+    let ys = case.ys();
+    let n = xs.len();
+    let d = xs[0].len();
+    let is32 = case.is32();
+    let alpha_s = case.seen(case.alpha);
+    // tolerances: f64 as before; f32: objective gap 1e-5 relative, gradient allowance 1e-5 * sum_i |z_i| * (1 + |y_i|),
+    // predictions 2e-6 relative (scaled by the linear predictor)
+    let gscale: f64 = xs.iter().zip(&ys).map(|(r, y)| (r.iter().map(|v| v.abs()).sum::<f64>() + 1.0) * (1.0 + y.abs())).sum();
+    let (gap_rel, g_extra, prel) = if is32 { (1e-5, 1e-5 * gscale, 2e-6) } else { (1e-8, 0.0, 1e-9) };
+    let gthr = 10.0 * case.tol + g_extra;
     let cj = || serde_json::to_value(crate::Case::Tweedie(case.clone())).unwrap();
     let rlink = match case.link.as_str() {
         "identity" => RefLink::Identity,
@@ -231,7 +312,7 @@ pub fn run(case: &TwCase, viols: &mut Vec<Violation>) -> Out {
     };
 
     // ---- targets outside the support must be rejected ----
-    if !in_support(case.power, &case.y) {
+    if !in_support(case.power, &ys) {
         out.nontrivial = true;
         out.tag("tweedie_out_of_support_cases");
         match fit_isolated(case) {
@@ -248,7 +329,6 @@ pub fn run(case: &TwCase, viols: &mut Vec<Violation>) -> Out {
                 format!("targets {:?} outside the support of power {}: expected InvalidTargetRange, but fit was still running after {} ms of CPU time", case.y, case.power, ISO_TIMEOUT_MS),
                 cj(),
             )),
-            FitRes::Model(_) => unreachable!(),
         }
         return out;
     }
@@ -258,17 +338,17 @@ pub fn run(case: &TwCase, viols: &mut Vec<Violation>) -> Out {
     let np = d + case.intercept as usize;
     let mut start = vec![0.0; np];
     if case.intercept {
-        let mean = case.y.iter().sum::<f64>() / n as f64;
+        let mean = ys.iter().sum::<f64>() / n as f64;
         start[d] = rlink.link(mean);
     }
-    let fgh = |t: &[f64]| refopt::tw_eval(&case.x, &case.y, case.power, rlink, case.alpha, case.intercept, t);
+    let fgh = |t: &[f64]| refopt::tw_eval(&xs, &ys, case.power, rlink, alpha_s, case.intercept, t);
     if start.iter().any(|v| !v.is_finite()) || fgh(&start).is_none() {
         out.ood = true;
         out.tag("tweedie_start_outside_objective_domain_out_of_domain");
         return out;
     }
     let own = refopt::lm_newton(&fgh, &start, 1e-10, 300);
-    let eta_max = case.x.iter().map(|xi| refopt::bin_score(xi, &own.x, case.intercept).abs()).fold(0.0f64, f64::max);
+    let eta_max = xs.iter().map(|xi| refopt::bin_score(xi, &own.x, case.intercept).abs()).fold(0.0f64, f64::max);
     if !own.converged || eta_max > 30.0 {
         out.ood = true;
         out.tag("tweedie_no_certified_interior_stationary_point_out_of_domain");
@@ -284,7 +364,6 @@ pub fn run(case: &TwCase, viols: &mut Vec<Violation>) -> Out {
     let fit = fit_isolated(case);
     let (w, b, pred) = match fit {
         FitRes::Params(w, b, p) => (w, b, p),
-        FitRes::Model(_) => unreachable!(),
         FitRes::ErrArgmin(e) if isolated => {
             let _ = e;
             out.tag("tweedie_identity_link_solver_error_accepted");
@@ -340,7 +419,7 @@ pub fn run(case: &TwCase, viols: &mut Vec<Violation>) -> Out {
     out.nontrivial = theta != start;
 
     // ---- stationarity ----
-    match refopt::tw_objective(&case.x, &case.y, case.power, rlink, case.alpha, case.intercept, &theta) {
+    match refopt::tw_objective(&xs, &ys, case.power, rlink, alpha_s, case.intercept, &theta) {
         None => {
             viols.push(Violation::new(
                 format!("tweedie.fit.params_outside_objective_domain.{}.{}", power_class(case.power), case.link),
@@ -350,12 +429,12 @@ pub fn run(case: &TwCase, viols: &mut Vec<Violation>) -> Out {
         }
         Some((f_at, g_at)) => {
             let gn = norm2(&g_at);
-            if gn > 10.0 * case.tol {
+            if gn > gthr {
                 out.tag("tweedie_gradient_above_10tol");
                 // own Newton from the RETURNED point: how much can the objective still be lowered?
                 let polished = refopt::lm_newton(&fgh, &theta, 1e-10, 300);
                 let gap = f_at - polished.f;
-                let gap_tol = 1e-8 * f_at.abs().max(1.0);
+                let gap_tol = gap_rel * f_at.abs().max(1.0);
                 if polished.f.is_finite() && gap > gap_tol {
                     // identity link on a positive-support distribution: the line search met a NaN cost (mean <= 0)
                     // and the solver gave up on the spot, handing back the documented start as if it had converged
@@ -374,7 +453,7 @@ pub fn run(case: &TwCase, viols: &mut Vec<Violation>) -> Out {
     }
 
     // ---- predictions (the real `predict`, evaluated in the child on tw_queries(x, coef)) ----
-    let queries = tw_queries(&case.x, &w);
+    let queries = tw_queries(&xs, &w, is32);
     if pred.len() != queries.len() {
         viols.push(Violation::new("tweedie.predict.wrong_length", format!("{} predictions for {} query rows", pred.len(), queries.len()), cj()));
         return out;
@@ -397,8 +476,9 @@ pub fn run(case: &TwCase, viols: &mut Vec<Violation>) -> Out {
             continue;
         }
         // the linear predictor (|eta| up to 1e3) is rounded differently by the two sides: allow |eta| * 1e-12 relative on exp
-        let tol = 1e-9 * want.abs().max(1e-300) * (1.0 + eta.abs());
-        if !(got == want || (got - want).abs() <= tol.max(1e-12)) {
+        let want = if is32 { (want as f32) as f64 } else { want };
+        let tol = prel * want.abs().max(1e-300) * (1.0 + eta.abs());
+        if !(got == want || (got - want).abs() <= tol.max(if is32 { 1e-30 } else { 1e-12 })) {
             viols.push(Violation::new("tweedie.predict.wrong_value", format!("query {:?}: prediction {} but inverse link of x.coef + intercept = {}", qi, got, want), cj()));
         }
     }
